@@ -1280,6 +1280,755 @@ fn check_processes(rep: &mut Report, b: &Batch, out_dir: &str) {
     rep.monitor("process_independence:documents_compared", (b.docs.len() * 3) as u64);
 }
 
+
+// ------------------------------------------------------------------------------------------------
+// the ENTRY POINTS replayed by the extracted model (Model/C05Entry.v): harper_wasm::Linter::lint and harper-ls
+// DocumentState::generate_diagnostics over histories of  set-config | lint | ignore_lint | clear ignored |
+// import words / dictionary change (a rebuild of the LintGroup).
+//   * the model is given, per lint, what a SHADOW linter (a freshly built probed LintGroup with the entry
+//     point's effective configuration and dictionary) computes without any cache: struct lints, rejected
+//     words, per-chunk pattern lints, and the context hash of every lint; it computes the effective
+//     configuration (fill_with_curated of ITS stored configuration — must be one the harness registered
+//     from the real fill_with_curated), SpellCheck's enabled-ness, the caches, remove_overlaps (wasm),
+//     remove_ignored, and must print the very lints the entry point returns;
+//   * harper-ls: DocumentState.linter is a probed group, so chunk/word cache hits are compared as well;
+//   * every configuration-changing operation: the model's stored configuration must equal the real one;
+//   * oracle: every lint step vs a freshly built entry point in the same abstract state (user words, stored
+//     configuration, exported ignore list).
+// ------------------------------------------------------------------------------------------------
+#[derive(Clone, Debug, PartialEq)]
+enum EOp {
+    Cfg(CfgSpec),
+    Lint { fe: String, text: String },
+    Ignore(usize),
+    ClearIgnored,
+    Words(Vec<String>),
+}
+#[derive(Clone, Debug)]
+struct EHistory {
+    target: String, // wasm | ls
+    dialect: String,
+    ops: Vec<EOp>,
+}
+impl EHistory {
+    fn to_json(&self) -> Value {
+        let ops: Vec<Value> = self
+            .ops
+            .iter()
+            .map(|o| match o {
+                EOp::Cfg(c) => json!({"op": "cfg", "base": c.base, "set": c.set}),
+                EOp::Lint { fe, text } => json!({"op": "lint", "fe": fe, "text": text}),
+                EOp::Ignore(n) => json!({"op": "ignore", "nth": n}),
+                EOp::ClearIgnored => json!({"op": "clear_ignored"}),
+                EOp::Words(ws) => json!({"op": "words", "words": ws}),
+            })
+            .collect();
+        json!({"kind": "entry", "target": self.target, "dialect": self.dialect, "ops": ops})
+    }
+    fn from_json(v: &Value) -> EHistory {
+        let ops = v["ops"]
+            .as_array()
+            .map(|a| {
+                a.iter()
+                    .filter_map(|o| match o["op"].as_str() {
+                        Some("cfg") => {
+                            let mut set = BTreeMap::new();
+                            if let Some(m) = o["set"].as_object() {
+                                for (k, x) in m {
+                                    set.insert(k.clone(), x.as_bool());
+                                }
+                            }
+                            Some(EOp::Cfg(CfgSpec { base: o["base"].as_str().unwrap_or("curated").to_string(), set }))
+                        }
+                        Some("lint") => Some(EOp::Lint { fe: o["fe"].as_str().unwrap_or("plain").to_string(), text: o["text"].as_str().unwrap_or("").to_string() }),
+                        Some("ignore") => Some(EOp::Ignore(o["nth"].as_u64().unwrap_or(0) as usize)),
+                        Some("clear_ignored") => Some(EOp::ClearIgnored),
+                        Some("words") => Some(EOp::Words(o["words"].as_array().map(|a| a.iter().filter_map(|x| x.as_str().map(|s| s.to_string())).collect()).unwrap_or_default())),
+                        _ => None,
+                    })
+                    .collect()
+            })
+            .unwrap_or_default();
+        EHistory { target: v["target"].as_str().unwrap_or("wasm").to_string(), dialect: v["dialect"].as_str().unwrap_or("American").to_string(), ops }
+    }
+}
+
+/// a configuration for the model: entries in key order, `key bytes=1|0|-`, separated by ';'
+fn render_cfg(c: &LintGroupConfig) -> String {
+    let v = serde_json::to_value(c).unwrap();
+    let m: BTreeMap<String, Option<bool>> = v.as_object().map(|o| o.iter().map(|(k, x)| (k.clone(), x.as_bool())).collect()).unwrap_or_default();
+    m.iter()
+        .map(|(k, x)| format!("{}={}", k.as_bytes().iter().map(|b| b.to_string()).collect::<Vec<_>>().join(" "), match x { Some(true) => "1", Some(false) => "0", None => "-" }))
+        .collect::<Vec<_>>()
+        .join(";")
+}
+/// the hash of LintContext::from_lint(lint, document), through the public API: ignore it in an empty list, export
+fn ctx_hash(l: &Lint, doc: &Document) -> u64 {
+    let mut ig = harper_core::IgnoredLints::new();
+    ig.ignore_lint(l, doc);
+    let v = serde_json::to_value(&ig).unwrap();
+    v["context_hashes"].as_array().and_then(|a| a.first()).and_then(|x| x.as_u64()).unwrap_or(0)
+}
+fn sugg_vis(s: &Suggestion) -> String {
+    match s {
+        Suggestion::ReplaceWith(c) => format!("replace:{}", c.iter().collect::<String>()),
+        Suggestion::InsertAfter(c) => format!("insertafter:{}", c.iter().collect::<String>()),
+        Suggestion::Remove => "remove:".to_string(),
+    }
+}
+/// what an integration can see of a lint besides its span: wasm — kind, suggestions, message; harper-ls — the message
+fn vis_core(target: &str, l: &Lint) -> String {
+    if target == "ls" {
+        format!("s:{}", l.message)
+    } else {
+        format!("w:{}|{:?}|{}", l.lint_kind.to_string_key(), l.suggestions.iter().map(sugg_vis).collect::<Vec<_>>(), l.message)
+    }
+}
+fn vis_wasm(l: &harper_wasm::Lint) -> String {
+    format!("w:{}|{:?}|{}", l.lint_kind(), l.suggestions().iter().map(|s| format!("{}:{}", format!("{:?}", s.kind()).to_lowercase(), s.get_replacement_text())).collect::<Vec<_>>(), l.message())
+}
+fn is_sentinel(l: &Lint) -> bool {
+    l.message.starts_with('\u{1}')
+}
+
+struct EntryWorld {
+    vis: Interner<String>,
+    ctxs: Interner<u64>,
+    announced_p: std::collections::HashSet<(String, usize)>,
+    announced_k: std::collections::HashSet<String>,
+}
+impl EntryWorld {
+    fn new() -> Self {
+        EntryWorld { vis: Interner::new(), ctxs: Interner::new(), announced_p: Default::default(), announced_k: Default::default() }
+    }
+}
+
+enum EntryImpl {
+    Wasm { lt: harper_wasm::Linter, last_out: Vec<harper_wasm::Lint> },
+    Ls { ds: Box<lsx::document_state::DocumentState>, probe: Arc<Mutex<ProbeState>>, spy: Arc<SpyDict>, cfg: LintGroupConfig, last_lints: Vec<Lint> },
+}
+struct EntryRun {
+    target: String,
+    dialect_s: String,
+    dialect: Dialect,
+    words: Vec<String>,
+    mirror: MutableDictionary,
+    dict: Dict,
+    dictid: usize,
+    imp: EntryImpl,
+    last: Option<(String, String)>,
+    lru: LruSim,
+    keyids: Interner<(Vec<char>, usize, usize)>,
+    pending_evict: Vec<usize>,
+    evictions: u64,
+}
+fn ls_group(dict: &Dict, dialect: Dialect, cfg: &LintGroupConfig) -> Probed {
+    let mut p = mk_group(dict, dialect);
+    let mut c = cfg.clone();
+    enable_probes(&mut c);
+    p.group.config = c;
+    p
+}
+fn clone_ignored(i: &harper_core::IgnoredLints) -> harper_core::IgnoredLints {
+    serde_json::from_value(serde_json::to_value(i).unwrap()).unwrap()
+}
+type DiagKey = (usize, usize, String);
+fn diag_keys(src: &[char], ds: &[lsx::tower_lsp::lsp_types::Diagnostic]) -> Vec<DiagKey> {
+    ds.iter()
+        .map(|d| {
+            let sp = lsx::pos_conv::range_to_span(src, d.range);
+            (sp.start, sp.end, d.message.clone())
+        })
+        .collect()
+}
+
+impl EntryRun {
+    fn dict_name(&self) -> String {
+        let mut ws = self.words.clone();
+        ws.sort();
+        format!("entry|{}|{:?}", self.dialect_s, ws)
+    }
+    fn new(w: &mut World, ew: &mut EntryWorld, rep: &mut Report, h: &EHistory) -> EntryRun {
+        let dialect = dialect_of(&h.dialect);
+        let dict = mk_dict(&[]);
+        let curated = LintGroupConfig::new_curated();
+        rep.case(&format!("X|{}", render_cfg(&curated)), "ok");
+        let imp = if h.target == "ls" {
+            let mut cfg = LintGroupConfig::default();
+            enable_probes(&mut cfg);
+            let Probed { group, probe, spy } = ls_group(&dict, dialect, &cfg);
+            let ds = lsx::document_state::DocumentState { linter: group, dict: dict.clone(), base_dict: dict.clone(), language_id: Some("plaintext".into()), ..Default::default() };
+            EntryImpl::Ls { ds: Box::new(ds), probe, spy, cfg, last_lints: vec![] }
+        } else {
+            EntryImpl::Wasm { lt: harper_wasm::Linter::new(wasm_dialect(&h.dialect)), last_out: vec![] }
+        };
+        let mut r = EntryRun { target: h.target.clone(), dialect_s: h.dialect.clone(), dialect, words: vec![], mirror: MutableDictionary::new(), dict, dictid: 0, imp, last: None, lru: LruSim::new(lru_cap()), keyids: Interner::new(), pending_evict: vec![], evictions: 0 };
+        r.dictid = w.dicts.id(&r.dict_name());
+        let _ = ew;
+        match &r.imp {
+            EntryImpl::Wasm { lt, .. } => {
+                let stored: LintGroupConfig = serde_json::from_str(&lt.get_lint_config_as_json()).unwrap();
+                rep.case(&format!("EN w {}", r.dictid), &render_cfg(&stored));
+            }
+            EntryImpl::Ls { ds, .. } => {
+                let line = render_cfg(&ds.linter.config);
+                rep.case(&format!("EN s {}|{}", r.dictid, line), &line);
+            }
+        }
+        r
+    }
+    fn stored(&self) -> LintGroupConfig {
+        match &self.imp {
+            EntryImpl::Wasm { lt, .. } => serde_json::from_str(&lt.get_lint_config_as_json()).unwrap(),
+            EntryImpl::Ls { ds, .. } => ds.linter.config.clone(),
+        }
+    }
+    fn reset_lru(&mut self) {
+        self.lru = LruSim::new(lru_cap());
+        self.keyids = Interner::new();
+        self.pending_evict.clear();
+    }
+    fn set_cfg(&mut self, w: &mut World, rep: &mut Report, spec: &CfgSpec) {
+        let c = build_cfg(spec, &w.all_keys);
+        let dictid = self.dictid;
+        match &mut self.imp {
+            EntryImpl::Wasm { lt, .. } => {
+                let _ = lt.set_lint_config_from_json(serde_json::to_string(&c).unwrap());
+                let stored: LintGroupConfig = serde_json::from_str(&lt.get_lint_config_as_json()).unwrap();
+                rep.case(&format!("EC|{}", render_cfg(&c)), &render_cfg(&stored));
+            }
+            EntryImpl::Ls { ds, probe, spy, cfg, .. } => {
+                // did_change_configuration: doc.linter = LintGroup::new_curated(doc.dict.clone(), dialect).with_lint_config(lint_config)
+                let mut c = c;
+                enable_probes(&mut c);
+                *cfg = c.clone();
+                let Probed { group, probe: p2, spy: s2 } = ls_group(&self.dict, self.dialect, &c);
+                ds.linter = group;
+                *probe = p2;
+                *spy = s2;
+                let line = render_cfg(&ds.linter.config);
+                rep.case(&format!("ER {}|{}", dictid, render_cfg(&c)), &line);
+                self.reset_lru();
+            }
+        }
+    }
+    fn add_words(&mut self, w: &mut World, rep: &mut Report, ws: &[String]) {
+        let before = self.mirror.clone();
+        self.mirror.extend_words(ws.iter().map(|x| (x.chars().collect::<harper_core::CharString>(), WordMetadata::default())));
+        let changed = self.mirror != before;
+        match &mut self.imp {
+            EntryImpl::Wasm { lt, .. } => {
+                lt.import_words(ws.to_vec());
+                self.words = lt.export_words();
+            }
+            EntryImpl::Ls { .. } => {
+                self.words = self.mirror.words_iter().map(|v| v.iter().collect::<String>()).collect();
+            }
+        }
+        if !changed {
+            rep.count("entry:words_without_change");
+            return;
+        }
+        self.dict = mk_dict(&self.words);
+        self.dictid = w.dicts.id(&self.dict_name());
+        let dictid = self.dictid;
+        match &mut self.imp {
+            EntryImpl::Wasm { lt, .. } => {
+                let stored: LintGroupConfig = serde_json::from_str(&lt.get_lint_config_as_json()).unwrap();
+                rep.case(&format!("ED {}", dictid), &render_cfg(&stored));
+            }
+            EntryImpl::Ls { ds, probe, spy, cfg, .. } => {
+                // update_document on a changed dictionary: new LintGroup over it, with_lint_config(lint_config)
+                let Probed { group, probe: p2, spy: s2 } = ls_group(&self.dict, self.dialect, cfg);
+                ds.linter = group;
+                ds.dict = self.dict.clone();
+                ds.base_dict = self.dict.clone();
+                *probe = p2;
+                *spy = s2;
+                let line = render_cfg(&ds.linter.config);
+                rep.case(&format!("ER {}|{}", dictid, render_cfg(cfg)), &line);
+                self.reset_lru();
+            }
+        }
+        rep.count("entry:dictionary_rebuilds");
+    }
+    fn clear_ignored(&mut self, rep: &mut Report) {
+        match &mut self.imp {
+            EntryImpl::Wasm { lt, .. } => lt.clear_ignored_lints(),
+            EntryImpl::Ls { ds, .. } => ds.ignored_lints = harper_core::IgnoredLints::new(),
+        }
+        rep.case("EK", "ok");
+    }
+    fn ignore(&mut self, ew: &mut EntryWorld, rep: &mut Report, n: usize) {
+        let Some((fe, text)) = self.last.clone() else { return };
+        let doc = mk_doc(&fe, &text, &self.dict);
+        let hid;
+        match &mut self.imp {
+            EntryImpl::Wasm { lt, last_out } => {
+                if last_out.is_empty() {
+                    return;
+                }
+                let l = &last_out[n % last_out.len()];
+                let js = l.to_json();
+                let Ok(core) = serde_json::from_value::<Lint>(serde_json::from_str::<Value>(&js).unwrap()["inner"].clone()) else { return };
+                hid = ew.ctxs.id(&ctx_hash(&core, &doc));
+                let Ok(copy) = harper_wasm::Lint::from_json(js) else { return };
+                lt.ignore_lint(text.clone(), copy);
+            }
+            EntryImpl::Ls { ds, last_lints, .. } => {
+                if last_lints.is_empty() {
+                    return;
+                }
+                let l = last_lints[n % last_lints.len()].clone();
+                hid = ew.ctxs.id(&ctx_hash(&l, &ds.document));
+                ds.ignore_lint(&l);
+            }
+        }
+        rep.case(&format!("EI {hid}"), "ok");
+        rep.count("entry:ignore_ops");
+    }
+
+    /// one lint step; Ok(Some(what)) = the entry point disagrees with a freshly built one in the same abstract state
+    fn lint(&mut self, w: &mut World, ew: &mut EntryWorld, rep: &mut Report, fe: &str, text: &str) -> Result<Option<String>, String> {
+        let dict = self.dict.clone();
+        let doc = guarded(|| mk_doc(fe, text, &dict)).map_err(|m| format!("parse panicked: {m}"))?;
+        let src: Vec<char> = text.chars().collect();
+        let is_ls = self.target == "ls";
+        let tchar = if is_ls { "s" } else { "w" };
+        // ---- the effective configuration, by the REAL fill_with_curated on the real stored configuration ----
+        let stored = self.stored();
+        let mut eff = stored.clone();
+        eff.fill_with_curated();
+        let eff_line = render_cfg(&eff);
+        let cfgid = w.cfgs.id(&format!("entry:{eff_line}"));
+        let hashid = w.streams.id(&hash_stream(&eff));
+        match w.cfg_of_stream.get(&hashid) {
+            Some((other, ojs)) if *other != cfgid && ojs != &eff_line && !ojs.starts_with('{') => {
+                rep.monitor("cfg_hash:VIOLATED", 1);
+                rep.fail("cfg_hash_collision", format!("two different effective configurations make identical calls on the hasher: {ojs} vs {eff_line}"), json!({"kind": "entry", "target": self.target, "dialect": self.dialect_s, "ops": []}));
+            }
+            Some(_) => {}
+            None => {
+                w.cfg_of_stream.insert(hashid, (cfgid, eff_line.clone()));
+            }
+        }
+        rep.monitor("cfg_hash:configurations_checked", 1);
+        if ew.announced_k.insert(eff_line.clone()) {
+            rep.case(&format!("K {cfgid} {hashid}|{eff_line}"), "ok");
+        }
+        // ---- the shadow: a fresh probed LintGroup, effective configuration, same dictionary: everything uncached ----
+        let mut sh = mk_group(&self.dict, self.dialect);
+        let mut sc = eff.clone();
+        enable_probes(&mut sc);
+        sh.group.config = sc;
+        let sdoc = doc.clone();
+        let (out_s, _, _) = sh.lint(&sdoc).map_err(|m| format!("shadow lint panicked: {m}"))?;
+        let Some((pre_s, groups_s)) = split_output(&out_s) else { return Err("probe sentinels missing from the shadow output".into()) };
+        let Some((spre, spell_s, spost)) = split_struct(&pre_s) else { return Err("probe spelling markers missing from the shadow output".into()) };
+        let keep = |ls: &[Lint]| -> Vec<Lint> { ls.iter().filter(|l| is_ls || !is_sentinel(l)).cloned().collect() };
+        // ---- run the entry point ----
+        let mut miss_g: Vec<usize> = vec![];
+        let mut wmiss_g: Vec<Vec<char>> = vec![];
+        let infos;
+        let impl_lints: Vec<(usize, usize, usize)>;
+        let mut diff: Option<String> = None;
+        match &mut self.imp {
+            EntryImpl::Wasm { lt, last_out } => {
+                infos = chunk_infos(w, &doc);
+                let out = guarded(|| lt.lint(text.to_string(), wasm_lang(fe))).map_err(|m| format!("wasm lint panicked: {m}"))?;
+                impl_lints = out.iter().map(|l| (l.span().start, l.span().end, ew.vis.id(&vis_wasm(l)))).collect();
+                // oracle: a freshly built Linter in the same abstract state
+                let (words, cfg_json, ign, dl) = (lt.export_words(), lt.get_lint_config_as_json(), lt.export_ignored_lints(), wasm_dialect(&self.dialect_s));
+                let fresh = guarded(|| {
+                    let mut f = harper_wasm::Linter::new(dl);
+                    if !words.is_empty() {
+                        f.import_words(words);
+                    }
+                    let _ = f.set_lint_config_from_json(cfg_json);
+                    let _ = f.import_ignored_lints(ign);
+                    wasm_render(&f.lint(text.to_string(), wasm_lang(fe)))
+                })
+                .map_err(|m| format!("fresh wasm lint panicked: {m}"))?;
+                let a = wasm_render(&out);
+                if a != fresh {
+                    let (_, d) = explain_diff(&a, &fresh, &self.words, "entry_reused_ne_fresh");
+                    diff = Some(format!("harper_wasm::Linter ({fe}) and a freshly built one with the same words, configuration and ignore list disagree: {d}"));
+                }
+                *last_out = out;
+            }
+            EntryImpl::Ls { ds, probe, spy, last_lints, .. } => {
+                ds.document = doc.clone();
+                infos = chunk_infos(w, &ds.document);
+                {
+                    let mut s = probe.lock().unwrap();
+                    s.misses.clear();
+                    s.prev_len = 0;
+                    s.prev_ptr = 0;
+                }
+                spy.log.lock().unwrap().clear();
+                let dsr: &mut lsx::document_state::DocumentState = ds;
+                let diags = guarded(|| dsr.generate_diagnostics(lsx::config::DiagnosticSeverity::Hint)).map_err(|m| format!("generate_diagnostics panicked: {m}"))?;
+                miss_g = std::mem::take(&mut probe.lock().unwrap().misses);
+                wmiss_g = std::mem::take(&mut *spy.log.lock().unwrap());
+                let keys = diag_keys(&src, &diags);
+                impl_lints = keys.iter().map(|(a, b, m)| (*a, *b, ew.vis.id(&format!("s:{m}")))).collect();
+                // oracle: a freshly built DocumentState in the same abstract state
+                let fg = ls_group(&self.dict, self.dialect, &stored);
+                let mut fds = lsx::document_state::DocumentState { document: doc.clone(), linter: fg.group, dict: self.dict.clone(), base_dict: self.dict.clone(), ignored_lints: clone_ignored(&ds.ignored_lints), language_id: Some("plaintext".into()), ..Default::default() };
+                let fdiags = guarded(|| fds.generate_diagnostics(lsx::config::DiagnosticSeverity::Hint)).map_err(|m| format!("fresh generate_diagnostics panicked: {m}"))?;
+                let fkeys = diag_keys(&src, &fdiags);
+                if keys != fkeys {
+                    let only_a: Vec<&DiagKey> = keys.iter().filter(|x| !fkeys.contains(x)).collect();
+                    let only_b: Vec<&DiagKey> = fkeys.iter().filter(|x| !keys.contains(x)).collect();
+                    diff = Some(format!("DocumentState::generate_diagnostics ({fe}) on the long-lived state and on a freshly built one with the same dictionary, configuration and ignore list disagree: {} vs {} diagnostics; only reused: {:?}; only fresh: {:?}", keys.len(), fkeys.len(), only_a, only_b));
+                }
+                *last_lints = out_s.iter().filter(|l| !is_sentinel(l)).cloned().collect();
+            }
+        }
+        self.last = Some((fe.to_string(), text.to_string()));
+        // ---- the case ----
+        let mut announce = |ew: &mut EntryWorld, rep: &mut Report, w: &mut World, l: &Lint| -> usize {
+            let pid = w.payloads.id(&payload(l));
+            if ew.announced_p.insert((tchar.to_string(), pid)) {
+                let vid = ew.vis.id(&vis_core(if is_ls { "ls" } else { "wasm" }, l));
+                rep.case(&format!("P {tchar} {pid} {vid}"), "ok");
+            }
+            pid
+        };
+        let mut line_of = |ew: &mut EntryWorld, rep: &mut Report, w: &mut World, ls: &[Lint], base: usize| -> Option<String> {
+            let mut v = vec![];
+            for l in ls {
+                if l.span.start < base || l.span.end < l.span.start {
+                    return None;
+                }
+                let pid = announce(ew, rep, w, l);
+                v.push(format!("{} {} {}", l.span.start - base, l.span.end - base, pid));
+            }
+            Some(v.join(" "))
+        };
+        let pre_line = line_of(ew, rep, w, &keep(&spre), 0).unwrap_or_default();
+        let post_line = line_of(ew, rep, w, &keep(&spost), 0).unwrap_or_default();
+        let word_of = |l: &Lint| -> Vec<char> { src[l.span.start.min(src.len())..l.span.end.min(src.len())].to_vec() };
+        let mut wfields = vec![];
+        let mut whm = String::new();
+        {
+            let mut p = 0usize;
+            for l in spell_s.iter() {
+                let wd = word_of(l);
+                let missed = p < wmiss_g.len() && wmiss_g[p] == wd;
+                if missed {
+                    p += 1;
+                }
+                whm.push(if missed { 'm' } else { 'h' });
+                let pid = w.payloads.id(&payload(l));
+                let _ = line_of(ew, rep, w, std::slice::from_ref(l), 0);
+                wfields.push(format!("{} {} {}", l.span.start, l.span.end, pid));
+            }
+        }
+        let with_hull: Vec<&ChunkInfo> = infos.iter().filter(|c| c.hull.is_some()).collect();
+        if groups_s.len() != with_hull.len() {
+            return Err(format!("probe: {} chunk sentinels for {} chunks", groups_s.len(), with_hull.len()));
+        }
+        let mut fields = vec![];
+        let mut hm = String::new();
+        let mut gi = 0usize;
+        for ci in &infos {
+            let Some(hull) = ci.hull else {
+                fields.push("-".to_string());
+                continue;
+            };
+            let chars: Vec<char> = src[hull.start.min(src.len())..hull.end.min(src.len())].to_vec();
+            let kid = self.keyids.id(&(chars.clone(), hashid, ci.thid));
+            let mut evict_before: Vec<String> = vec![];
+            if is_ls {
+                evict_before = std::mem::take(&mut self.pending_evict).iter().map(|k| k.to_string()).collect();
+                let missed = miss_g.contains(&ci.first_tok_start);
+                hm.push(if missed { 'M' } else { 'H' });
+                if !self.lru.get(kid) {
+                    if let Some(old) = self.lru.put(kid) {
+                        self.pending_evict.push(old);
+                        self.evictions += 1;
+                    }
+                }
+            }
+            let Some(known) = line_of(ew, rep, w, &keep(&groups_s[gi]), hull.start) else {
+                return Err("a pattern lint starts before its chunk".into());
+            };
+            fields.push(format!("{} {}:{}:{}:{}", kid, ci.thid, known, evict_before.join(" "), ci.tokens));
+            gi += 1;
+        }
+        // the context hash of every lint LintGroup::lint can return here
+        let mut cfields = vec![];
+        for l in keep(&out_s).iter() {
+            let pid = w.payloads.id(&payload(l));
+            cfields.push(format!("{} {} {} {}", l.span.start, l.span.end, pid, ew.ctxs.id(&ctx_hash(l, &doc))));
+        }
+        let case = format!("EL {tchar}|{}|{}|{}|{}|{}|{}", cps(&src), pre_line, wfields.join(";"), post_line, fields.join(";"), cfields.join(";"));
+        let lints = impl_lints.iter().map(|(a, b, v)| format!("{a} {b} {v}")).collect::<Vec<_>>().join(" ");
+        let impl_line = if is_ls { format!("{}|{}|{}", lints, hm, if eff.is_rule_enabled("SpellCheck") { whm.clone() } else { String::new() }) } else { lints };
+        rep.case(&case, impl_line.trim());
+        rep.count(&format!("entry:{}:lint:{fe}", self.target));
+        if !impl_lints.is_empty() {
+            rep.count(&format!("entry:{}:lint_steps_with_lints", self.target));
+        }
+        if is_ls {
+            rep.count_n("entry:ls:chunk_lookups", hm.len() as u64);
+            rep.count_n("entry:ls:chunk_hits", hm.matches('H').count() as u64);
+        }
+        Ok(diff)
+    }
+}
+
+fn run_entry(w: &mut World, ew: &mut EntryWorld, rep: &mut Report, h: &EHistory) {
+    let mut run = EntryRun::new(w, ew, rep, h);
+    for (i, op) in h.ops.iter().enumerate() {
+        match op {
+            EOp::Cfg(spec) => run.set_cfg(w, rep, spec),
+            EOp::Words(ws) => run.add_words(w, rep, ws),
+            EOp::ClearIgnored => run.clear_ignored(rep),
+            EOp::Ignore(n) => run.ignore(ew, rep, *n),
+            EOp::Lint { fe, text } => {
+                rep.eval();
+                match run.lint(w, ew, rep, fe, text) {
+                    Err(m) => {
+                        rep.count(&format!("entry:aborted_history({})", m.split(':').next().unwrap_or("")));
+                        return;
+                    }
+                    Ok(None) => {}
+                    Ok(Some(what)) => {
+                        let mut failing = h.clone();
+                        failing.ops.truncate(i + 1);
+                        rep.fail("entry_reused_ne_fresh", what, failing.to_json());
+                    }
+                }
+                rep.nontrivial(&(h.target.clone(), fe.clone(), text.clone(), i));
+            }
+        }
+    }
+    rep.count_n("entry:lru_evictions_replayed_by_the_model", run.evictions);
+}
+
+fn gen_entry_history(r: &mut Rng, w: &World, target: &str) -> EHistory {
+    let n = r.range(4, 12);
+    let mut ops = vec![];
+    let mut pool = clause_pool(r);
+    // words that will be added to the user dictionary in the middle of the history, misspelt and spelt right in the clauses
+    let new_words: &[&str] = &["zorbla", "qzxv", "wrod", "Tuesdy", "frobnicate", "harperish"];
+    let w1 = r.s(new_words).to_string();
+    pool.push(format!("{} {} {}", r.s(gen::COMMON), w1, r.s(gen::COMMON)));
+    pool.push(format!("{} {} {}", r.s(gen::COMMON), recase(r, &w1), r.s(gen::TRIGGERS)));
+    let mut texts: Vec<String> = vec![];
+    let mut cfgs: Vec<CfgSpec> = vec![];
+    let mut added = false;
+    for _ in 0..n {
+        match r.below(10) {
+            0 | 1 => {
+                let c = if !cfgs.is_empty() && r.chance(1, 2) { r.pick(&cfgs[..]).clone() } else { gen_cfg(r, w) };
+                cfgs.push(c.clone());
+                ops.push(EOp::Cfg(c));
+            }
+            2 => ops.push(EOp::Ignore(r.below(6))),
+            3 => {
+                if r.chance(1, 3) {
+                    ops.push(EOp::ClearIgnored)
+                } else {
+                    ops.push(EOp::Ignore(r.below(6)))
+                }
+            }
+            4 => {
+                // a new word; the same word again (no change); or a known word in another casing (a change without a new entry)
+                let ws = if !added { vec![w1.clone()] } else { match r.below(3) { 0 => vec![w1.clone()], 1 => vec![recase(r, &w1)], _ => vec![r.s(new_words).to_string()] } };
+                added = true;
+                ops.push(EOp::Words(ws));
+            }
+            _ => {
+                let text = if !texts.is_empty() && r.chance(1, 2) { r.pick(&texts[..]).clone() } else { text_from_pool(r, &pool) };
+                texts.push(text.clone());
+                let fe = if target == "wasm" { r.s(&["plain", "markdown"]) } else { r.s(&["plain", "plain", "markdown", "markdown-ilt", "html", "typst", "gitcommit"]) };
+                ops.push(EOp::Lint { fe: fe.to_string(), text });
+            }
+        }
+    }
+    // every history ends with a document linted before
+    if let Some(t) = texts.first() {
+        ops.push(EOp::Lint { fe: "plain".into(), text: t.clone() });
+    }
+    EHistory { target: target.into(), dialect: r.s(&["American", "American", "British", "Canadian", "Australian"]).to_string(), ops }
+}
+
+
+// ------------------------------------------------------------------------------------------------
+// SpellCheck.word_cache with the real replacement policy (Model/C05Lru.v): ONE long-lived SpellCheck over a
+// spying dictionary (a `fuzzy_match(word, 2, _)` = a miss), document after document; the model (concrete LRU of
+// the capacity read from spell_check.rs) must print the same lints and the same hit/miss flag per word.
+// Thorough tier: more distinct rejected words than the capacity, early ones revisited: real evictions.
+// ------------------------------------------------------------------------------------------------
+fn word_cache_cap() -> usize {
+    let src = std::fs::read_to_string("/repo/harper-core/src/linting/spell_check.rs").unwrap_or_default();
+    src.split("word_cache: LruCache::new(NonZero::new(").nth(1).and_then(|r| r.split(')').next()).and_then(|n| n.replace('_', "").trim().parse().ok()).unwrap_or(10000)
+}
+fn spell_lints_line(w: &mut World, ls: &[Lint]) -> String {
+    ls.iter().map(|l| format!("{} {} {}", l.span.start, l.span.end, w.payloads.id(&payload(l)))).collect::<Vec<_>>().join(" ")
+}
+fn run_spell(w: &mut World, rep: &mut Report, dialect_s: &str, user_words: &[String], docs: &[String]) {
+    use harper_core::linting::SpellCheck;
+    let dict = mk_dict(user_words);
+    let dialect = dialect_of(dialect_s);
+    let spy = Arc::new(SpyDict { inner: dict.clone(), log: Mutex::new(vec![]) });
+    let mut reused = SpellCheck::new(spy.clone(), dialect);
+    let cap = word_cache_cap();
+    rep.case(&format!("SN {cap}"), "ok");
+    let dictid = w.dicts.id(&format!("{}|{:?}", dialect_s, user_words));
+    let mut sim = LruSim::new(cap);
+    let mut ids: Interner<Vec<char>> = Interner::new();
+    let (mut lookups, mut hits, mut evictions) = (0u64, 0u64, 0u64);
+    for (i, text) in docs.iter().enumerate() {
+        let Ok(doc) = guarded(|| mk_doc("plain", text, &dict)) else { return };
+        let src: Vec<char> = text.chars().collect();
+        spy.log.lock().unwrap().clear();
+        let Ok(out) = guarded(|| reused.lint(&doc)) else {
+            rep.count("spell:aborted(lint panicked)");
+            return;
+        };
+        let wmiss = std::mem::take(&mut *spy.log.lock().unwrap());
+        let mut fresh = SpellCheck::new(dict.clone(), dialect);
+        let Ok(out_f) = guarded(|| fresh.lint(&doc)) else { return };
+        rep.eval();
+        // oracle: the long-lived SpellCheck vs a fresh one
+        if out.iter().map(render).ne(out_f.iter().map(render)) {
+            let k = out.iter().zip(out_f.iter()).position(|(a, b)| render(a) != render(b)).unwrap_or(0);
+            rep.fail(
+                "spell_reused_ne_fresh",
+                format!("document {i}: the long-lived SpellCheck and a fresh one disagree (first at lint {k}: {:?} vs {:?}; {} vs {} lints)", out.get(k).map(render), out_f.get(k).map(render), out.len(), out_f.len()),
+                json!({"kind": "spell", "dialect": dialect_s, "user_words": user_words, "docs": docs[..=i].to_vec()}),
+            );
+        }
+        // spell_fun monitor + the case
+        let mut whm = String::new();
+        let mut wfields = vec![];
+        let mut p = 0usize;
+        for (l, lf) in out.iter().zip(out_f.iter()) {
+            let wd: Vec<char> = src[l.span.start.min(src.len())..l.span.end.min(src.len())].to_vec();
+            let missed = p < wmiss.len() && wmiss[p] == wd;
+            if missed {
+                p += 1;
+            }
+            whm.push(if missed { 'm' } else { 'h' });
+            let pid = w.payloads.id(&payload(lf));
+            match w.spell_table.get(&(dictid, wd.clone())) {
+                Some((p0, t0)) if *p0 != pid => {
+                    rep.monitor("spell_not_function:VIOLATED", 1);
+                    rep.fail("spell_not_function", format!("the lint an uncached SpellCheck builds for the word {:?} differs between two computations with the same dictionary and dialect (first seen in {:?})", wd.iter().collect::<String>(), t0), json!({"kind": "instances", "dialect": dialect_s, "user_words": user_words, "docs": [{"fe": "plain", "text": t0}, {"fe": "plain", "text": text}]}));
+                }
+                Some(_) => {}
+                None => {
+                    w.spell_table.insert((dictid, wd.clone()), (pid, text.chars().take(200).collect()));
+                }
+            }
+            wfields.push(format!("{} {} {}", lf.span.start, lf.span.end, pid));
+            // bookkeeping only (distribution): how many real evictions the history forces
+            let id = ids.id(&wd);
+            if !sim.get(id) {
+                if sim.put(id).is_some() {
+                    evictions += 1;
+                }
+            }
+        }
+        lookups += whm.len() as u64;
+        hits += whm.matches('h').count() as u64;
+        rep.case(&format!("SL|{}|{}", cps(&src), wfields.join(";")), &format!("{}|{}", spell_lints_line(w, &out), whm));
+        rep.nontrivial(&("spell", text.clone(), i));
+    }
+    rep.count_n("spell:word_cache_lookups", lookups);
+    rep.count_n("spell:word_cache_hits", hits);
+    rep.count_n("spell:word_cache_evictions(real LRU, replayed by the model)", evictions);
+    rep.monitor("spell_fun:words_checked", lookups);
+}
+/// distinct non-words one edit away from a dictionary word (cheap to correct: the first fuzzy search succeeds):
+/// the i-th lower-case curated word of 6..10 letters with an `x` inserted after its second letter
+fn pseudo_word(i: usize) -> String {
+    static WORDS: std::sync::OnceLock<Vec<String>> = std::sync::OnceLock::new();
+    let ws = WORDS.get_or_init(|| {
+        let d = FstDictionary::curated();
+        let mut v: Vec<String> = d.words_iter().filter(|w| (6..=10).contains(&w.len()) && w.iter().all(|c| c.is_ascii_lowercase())).map(|w| w.iter().collect()).collect();
+        v.sort();
+        v.dedup();
+        v
+    });
+    let base = &ws[(i * 3) % ws.len()];
+    format!("{}x{}", &base[..2], &base[2..])
+}
+/// two distinct non-words of the same length with the same first and last letter (near two different dictionary
+/// words): whatever a cache does with "similar" keys, these must not share an entry
+fn pseudo_pair(i: usize) -> (String, String) {
+    static PAIRS: std::sync::OnceLock<Vec<(String, String)>> = std::sync::OnceLock::new();
+    let ps = PAIRS.get_or_init(|| {
+        let d = FstDictionary::curated();
+        let mut groups: BTreeMap<(usize, char, char), Vec<String>> = BTreeMap::new();
+        for w in d.words_iter() {
+            if (6..=9).contains(&w.len()) && w.iter().all(|c| c.is_ascii_lowercase()) {
+                groups.entry((w.len(), w[0], w[w.len() - 1])).or_default().push(w.iter().collect());
+            }
+        }
+        let mut v = vec![];
+        for (_, mut g) in groups {
+            g.sort();
+            g.dedup();
+            let n = g.len();
+            if n >= 2 {
+                v.push((g[0].clone(), g[n / 2].clone()));
+                v.push((g[n - 1].clone(), g[n / 3].clone()));
+            }
+        }
+        v.retain(|(a, b)| a != b);
+        v
+    });
+    let (a, b) = &ps[(i * 7) % ps.len()];
+    (format!("{}x{}", &a[..3], &a[3..]), format!("{}x{}", &b[..3], &b[3..]))
+}
+fn gen_spell_docs(r: &mut Rng, docs: usize, per_doc: usize, revisit_every: usize) -> Vec<String> {
+    let mut out = vec![];
+    let mk = |d: usize, r: &mut Rng| -> String {
+        let mut t = String::new();
+        // the last rejected word of a document and the first of the next have the same shape (length, first and
+        // last letter): what the cache holds from the previous document must not leak into this one
+        if d > 0 {
+            t.push_str(&format!("{} ", pseudo_pair(1000 + d - 1).1));
+        }
+        for k in 0..per_doc {
+            let wd = pseudo_word(d * per_doc + k);
+            let wd = if k % 7 == 3 { gen::capitalize(&wd) } else { wd };
+            t.push_str(&format!("{} {} ", r.s(gen::COMMON), wd));
+            if k % 5 == 4 {
+                t.push_str(r.s(CASED_MISSPELT));
+                t.push(' ');
+            }
+            if k % 9 == 1 {
+                let (a, b) = pseudo_pair(d * 3 + k / 9);
+                t.push_str(&format!("{a} {b} {a} "));
+            }
+            if k % 6 == 2 {
+                // misspellings whose nearest candidates belong to different dialects: the cache must hold what is
+                // left AFTER the dialect filter
+                t.push_str(r.s(&["coluor", "favuor", "centere", "realiise", "honuor", "theatere", "analyise", "flavuor", "neighbuor", "organiise"]));
+                t.push(' ');
+            }
+        }
+        t.push_str(&format!("{}.", pseudo_pair(1000 + d).0));
+        t
+    };
+    let first = mk(0, r);
+    for d in 0..docs {
+        out.push(mk(d, r));
+        if revisit_every > 0 && d % revisit_every == revisit_every - 1 {
+            out.push(first.clone()); // kept alive by the revisits
+        }
+    }
+    out.push(mk(1, r)); // long evicted (thorough) / still cached (quick)
+    out.push(first);
+    out
+}
+
 // ------------------------------------------------------------------------------------------------
 // generators
 // ------------------------------------------------------------------------------------------------
@@ -1481,8 +2230,13 @@ fn colliding_cfg_history(r: &mut Rng, w: &World) -> History {
     }
 }
 
-fn run_input(w: &mut World, rep: &mut Report, v: &Value, out_dir: &str) {
+fn run_input(w: &mut World, ew: &mut EntryWorld, rep: &mut Report, v: &Value, out_dir: &str) {
     match v["kind"].as_str() {
+        Some("entry") => run_entry(w, ew, rep, &EHistory::from_json(v)),
+        Some("spell") => {
+            let strs = |x: &Value| -> Vec<String> { x.as_array().map(|a| a.iter().filter_map(|s| s.as_str().map(|s| s.to_string())).collect()).unwrap_or_default() };
+            run_spell(w, rep, v["dialect"].as_str().unwrap_or("American"), &strs(&v["user_words"]), &strs(&v["docs"]))
+        }
         Some("history") => {
             let h = History::from_json(v);
             if h.target == "wasm" {
@@ -1507,8 +2261,9 @@ fn main() {
     let mut rep = Report::new(&args.out);
     rep.rule = "histories of (set-config | lint document in front-end L) on ONE long-lived LintGroup: every Lint step compared with a freshly built linter (spans, kinds, messages, suggestions, priorities, order) and replayed by the extracted cache model (emitted lints + hit/miss per chunk, hits observed through a probe rule); documents draw clauses from a per-history pool so that clauses recur at other offsets, in other front-ends (plain, Markdown x2, HTML, Typst, git-commit, Rust/Python comments, literate Haskell), under toggled and re-toggled configurations; one history with > 10 000 distinct clauses (LRU eviction, replayed through an LRU simulation); configurations built to collide in the hasher input (malformed stream); the same histories on harper_wasm::Linter (plain + Markdown on one instance); the same documents on 8 threads (independent linters, and one linter handed round), in 3 child processes and on 5 + 3 linters built the same way on one thread (LintGroup, harper_wasm::Linter), with a user dictionary holding more equidistant candidates than are shown. non-trivial = distinct (front-end, text, configuration, position in history)".into();
     let mut w = World::new();
+    let mut ew = EntryWorld::new();
     for c in &corpus {
-        run_input(&mut w, &mut rep, c, &args.out);
+        run_input(&mut w, &mut ew, &mut rep, c, &args.out);
     }
     if args.replay.is_some() {
         rep.finish();
@@ -1526,6 +2281,16 @@ fn main() {
     for _ in 0..args.scale(50, 300) {
         let h = gen_history(&mut r, &w, "wasm");
         run_wasm(&mut w, &mut rep, &h);
+    }
+    for i in 0..args.scale(40, 240) {
+        let h = gen_entry_history(&mut r, &w, if i % 2 == 0 { "wasm" } else { "ls" });
+        run_entry(&mut w, &mut ew, &mut rep, &h);
+    }
+    {
+        // SpellCheck.word_cache over the concrete LRU: quick — hits and promotions; thorough — more distinct
+        // rejected words than the capacity (real evictions), early documents revisited
+        let docs = if args.thorough() { gen_spell_docs(&mut r, 116, 90, 20) } else { gen_spell_docs(&mut r, 6, 12, 3) };
+        run_spell(&mut w, &mut rep, r.s(&["American", "British"]), &[], &docs);
     }
     if args.thorough() {
         // > 10 000 distinct clauses on one linter (LruCache capacity): evictions happen in the implementation
